@@ -74,10 +74,16 @@ void _ZN9QtPrivate16QStringList_sortEP11QStringListN2Qt15CaseSensitivityE(char *
   ASSERT(cs == 1, "case-insensitive sort not modelled"); ASSERT(l->ref == 1 && l->begin == LD_B, "QStringList::sort: list must be detached (model)"); ASSERT(n <= LIST_CAP, "QList capacity of the model exceeded");
   for (uint32_t pass = 0; pass + 1 < LIST_CAP; pass++) { if (pass + 1 >= n) break;
     for (uint32_t k = 0; k + 1 < LIST_CAP; k++) { if (k + 1 >= n) break; if (sl_cmp((QAD*)SL(l, k + 1), (QAD*)SL(l, k)) < 0) { char *t = SL(l, k); SL(l, k) = SL(l, k + 1); SL(l, k + 1) = t; } } } }
-void _ZN9QtPrivate16QStringList_joinEPK11QStringListPK5QChari(char *ret, char *self, char *sep, uint32_t seplen) { struct ld *l = LD(self); uint32_t n = l->end - l->begin; *(QAD**)ret = qs_new(0, 0);
-  ASSERT(n <= LIST_CAP, "QList capacity of the model exceeded");
-  for (uint32_t i = 0; i < LIST_CAP; i++) { if (i >= n) break; if (i > 0 && seplen) qs_append_raw(ret, (uint16_t*)sep, seplen, seplen);
-    QAD *e = (QAD*)l->array[l->begin + i]; if (e->f1) { ASSERT(!numS(e).isnum, "join of an abstract number string"); qs_append_raw(ret, qs_chars(e), e->f1, qs_hint(e)); } } }
+#ifndef C20_ELCAP
+#define C20_ELCAP 4u   /* longest list element join() handles */
+#endif
+void _ZN9QtPrivate16QStringList_joinEPK11QStringListPK5QChari(char *ret, char *self, char *sep, uint32_t seplen) { struct ld *l = LD(self); uint32_t n = l->end - l->begin;
+  ASSERT(n <= LIST_CAP, "QList capacity of the model exceeded"); ASSERT(seplen <= 1, "join: separator longer than one unit not modelled");
+  QAD *r = qs_new(0, LIST_CAP * (C20_ELCAP + 1)); uint32_t pos = 0;   /* one result block with a constant hint, typed stores */
+  for (uint32_t i = 0; i < LIST_CAP; i++) { if (i >= n) break; if (i > 0 && seplen) { SD(r)[pos] = *(uint16_t*)sep; pos++; }
+    QAD *e = (QAD*)l->array[l->begin + i]; ASSERT(e->f1 <= C20_ELCAP, "join: element longer than C20_ELCAP");
+    for (uint32_t k = 0; k < C20_ELCAP; k++) { if (k >= e->f1) break; SD(r)[pos + k] = QCH16(e)[k]; } pos += e->f1; }
+  r->f1 = pos; *(QAD**)ret = r; }
 #endif
 /* ---- QVariant restricted to Invalid / QString / QStringList (value in the data word, as Qt does for movable pointer-sized types) ---- */
 struct qv { char *ptr; uint32_t tw; uint32_t pad; };
@@ -205,7 +211,7 @@ void _ZN5QListIN13QXmppDataForm5FieldEE7deallocEPN9QListData4DataE(char *self, c
    Slot = number of the insert call (concrete), a replaced or taken entry is only marked absent. ---- */
 #ifdef HAVE_T_struct_QListData__Data
 #ifndef QM_CAP
-#define QM_CAP 4
+#define QM_CAP 3
 #endif
 struct qm { uint32_t cnt; uint8_t present[QM_CAP]; QAD *key[QM_CAP]; char *val[QM_CAP]; };
 #define QM(self) (*(struct qm**)(self))
